@@ -24,6 +24,11 @@ CHECKS.update({
         text="Exploration. Generated graphs (IRIs with odd local names and non-ASCII, bnode trees/cycles/self-loops/unreferenced and multiply-referenced nodes, well-formed, shared-tail, extra-property, cyclic, ring-shaped and malformed rdf:List structures, literals over every recognised datatype, language tags, arbitrary Unicode, falsy values) are serialised with each of the 8 serializers under option combinations (base, bind_namespaces, user prefixes on nested namespaces) and parsed back; rv.iso (own bijection search, own literal key) must find the result isomorphic; serialisation must finish within a logical step budget and must not change the graph. Nine listed findings (Turtle decimal/double shorthand, several pretty-xml losses, JSON-LD unrooted cycles and malformed lists) are carved out by input predicates and replayed on every run.",
         note="RDF/XML family restricted to what XML 1.0 can express (predicates splitting into namespace+NCName, XML Char text). Literals come from the normalising constructor. HexTuples: plain == xsd:string only.",
         ref="DESIGN.md §3 C03"),
+    "C11": dict(
+        technique="runtime monitoring: differential of path evaluation (API and SPARQL) against a set-algebra reference over pairs; step budget on cyclic data; exhaustive small scope",
+        text="Exploration. Generated path expressions to depth 4 (inverse, sequences of 2-4 steps, alternatives, * + ?, negated property sets, nested closures) on graphs of 1-10 triples with cycles, self-loops and literal objects incl. falsy ones are evaluated for all four bound/unbound combinations of the ends (ends from graph nodes, falsy literals, terms absent from the graph) through Graph.triples / subjects / objects and through SPARQL SELECT; the result set must equal the relation computed by structural recursion over a plain set of pairs (composition, union, converse, fixpoint closures, zero-length pairs over nodes(G) plus the bound ends); a top-level closure must be duplicate-free; every evaluation runs under a logical step budget. Exhaustive lane: 50+ path shapes of depth<=2 over every small graph on {a, b, 0}. One listed finding (negated set with an inverse member) is carved out.",
+        note="SPARQL lane does not write blank nodes or literal subjects as constants.",
+        ref="DESIGN.md §3 C11"),
     "C12": dict(
         technique="runtime monitoring: histories of parse calls into one target with a conservation-law oracle (old content kept exactly; added content isomorphic to the document; blank nodes renamed apart)",
         text="Exploration. Sequences of 2-5 documents in any mix of nine parsers (nt, nquads, turtle, trig, n3, rdf/xml, trix, json-ld, hext) are parsed into one Graph or Dataset that already has content. Documents are rendered by the harness's own minimal writers with explicit _:labels from a small shared pool that includes labels equal to ids of nodes already in the target and rdflib-looking N<hex> ids; the same document is often parsed twice; some are truncated so the parse fails half-way. After each parse: old content is a subset of the new content exactly; the added statements are isomorphic to the document's own graph (so a label repeated inside one document, across its named graphs too, is one node); no added blank node is a node that was already there; two fresh parses of one document are isomorphic. JSON-LD and HexTuples keep document labels (listed findings, pinned by the repository's tests) and are carved out for documents that use blank nodes.",
